@@ -3,7 +3,7 @@ CONSTANTS
   GridSel = "g2"
   UnOps = {"-", "~", "!"}
   CastTypes = {"B", "sc", "us", "l"}
-  BinOps = {"+", "-", "*", "/", "<<", ">>", "&", "<", "==", "&&"}
+  BinOps = {"+", "-", "*", "/", "<<", ">>", "<", "&&"}
   UseCond = TRUE
   LvTypes = {}
   AsgOps = {}
